@@ -281,8 +281,10 @@ def regex_hole_is_grouped(pattern_with_hole: str, hole: str = HOLE) -> Tuple[boo
 
     # (non-capturing groups are flattened by the parser: ^(?:X|Y)$ -> [AT, BRANCH, AT]; ^X|Y$ -> [BRANCH([AT X], [Y AT])])
     has_begin = bool(items) and str(items[0][0]) == "AT" and "BEGINNING" in str(items[0][1])
-    has_end = bool(items) and str(items[-1][0]) == "AT" and "END" in str(items[-1][1]) and "END_STRING" not in str(items[-1][1]) \
-        or (bool(items) and str(items[-1][0]) == "AT" and "END" in str(items[-1][1]))
+    has_end = bool(items) and str(items[-1][0]) == "AT" and "END" in str(items[-1][1])
+    if has_begin and has_end and "END_STRING" not in str(items[-1][1]):
+        return False, ("the end anchor is `$`, which also matches just before a trailing newline: a key such as "
+                       "'id_1\\n' passes a pattern that should reject it (use \\Z or fullmatch)")
     if not (has_begin and has_end):
         if len(items) == 1 and str(items[0][0]) == "BRANCH":
             return False, "the user pattern sits at top level: an alternation splits the anchored sequence (^a|b$)"
